@@ -171,6 +171,29 @@ func (tr *fnTrans) specMods(sp *FuncSpec) []string {
 			addRec(m[4:])
 			continue
 		}
+		if strings.HasPrefix(m, "maps:") {
+			// maps:Type.field : the contents of every Go map of that field's type
+			name := m[5:]
+			i := strings.LastIndex(name, ".")
+			var ft types.Type
+			if i > 0 {
+				if t := tr.eng.LookupGoType(name[:i], tr.c.home); t != nil {
+					if st, _, _ := derefStruct(t); st != nil {
+						if f := findField(st, name[i+1:]); f != nil {
+							ft = f.Type()
+						}
+					}
+				}
+			}
+			cs := tr.mapComps(ft)
+			if ft == nil || cs == nil {
+				panic(evalErr{fmt.Sprintf("%s: modifies %s: not a map-typed field", sp.Where, m)})
+			}
+			for _, cn := range cs {
+				add(cn)
+			}
+			continue
+		}
 		if strings.HasPrefix(m, "?") {
 			// optional entry: a component of a package that may not be loaded in this check
 			cn, err := tr.compForModifies(m[1:])
@@ -484,6 +507,7 @@ func (tr *fnTrans) applySpecIn(sp *FuncSpec, name string, args []Term, sig *type
 			}
 			tr.havoc(tr.cur, cn)
 		}
+		tr.recordsAppendOnly(pre, own)
 	}
 	if sp.Flags["pure"] == "" {
 		tr.bumpClock()
@@ -549,6 +573,43 @@ func (tr *fnTrans) recordCall(sp *FuncSpec, args, res []Term, pre *State) {
 		tr.set(tr.cur, comp, s, app("store", tr.get(tr.cur, comp, s), k, tr.get(pre, hc, tr.compSort[hc])))
 	}
 	tr.set(tr.cur, cntC, "Int", "(+ "+k+" 1)")
+}
+
+// recordsAppendOnly: call records are only ever appended to.  After a callee may have changed the records of
+// other functions (its modifies lists rec_<name>), the counter has not gone down and every entry below the
+// old counter is what it was.
+func (tr *fnTrans) recordsAppendOnly(pre *State, own string) {
+	var names []string
+	for cn := range tr.compSort {
+		if strings.HasPrefix(cn, "G:rec_") && strings.HasSuffix(cn, "_cnt") && (own == "" || !strings.HasPrefix(cn, own)) {
+			names = append(names, cn)
+		}
+	}
+	sort.Strings(names)
+	for _, cntC := range names {
+		oldCnt, ok1 := pre.comps[cntC]
+		newCnt := tr.get(tr.cur, cntC, "Int")
+		if !ok1 || oldCnt == newCnt {
+			continue
+		}
+		tr.assume(app("<=", oldCnt, newCnt))
+		prefix := strings.TrimSuffix(cntC, "cnt")
+		var comps []string
+		for cn := range tr.compSort {
+			if strings.HasPrefix(cn, prefix) && cn != cntC {
+				comps = append(comps, cn)
+			}
+		}
+		sort.Strings(comps)
+		for _, cn := range comps {
+			o, ok := pre.comps[cn]
+			n := tr.get(tr.cur, cn, tr.compSort[cn])
+			if !ok || o == n {
+				continue
+			}
+			tr.assume(fmt.Sprintf("(forall ((qv!r Int)) (! (=> (< qv!r %s) (= (select %s qv!r) (select %s qv!r))) :pattern ((select %s qv!r))))", oldCnt, n, o, n))
+		}
+	}
 }
 
 func (tr *fnTrans) sameSCC(key string) bool {
@@ -632,7 +693,7 @@ func (tr *fnTrans) builtin(b *ssa.Builtin, cc *ssa.CallCommon, ins ssa.Instructi
 		case "Ref":
 			if _, isMap := types.Unalias(cc.Args[0].Type()).Underlying().(*types.Map); isMap {
 				cs := tr.mapComps(cc.Args[0].Type())
-				f := c.declFun("maplen:"+cs[0], []Sort{strings.TrimSuffix(strings.TrimPrefix(tr.compSort[cs[0]], "(Array Ref "), ")")}, "Int")
+				f := tr.maplenFun(cs[0])
 				t := Term{app(f, app("select", tr.get(tr.cur, cs[0], tr.compSort[cs[0]]), a.S)), "Int", types.Typ[types.Int]}
 				tr.assume(app("<=", "0", t.S))
 				return []Term{t}
